@@ -11,13 +11,16 @@ from core import corr, oracle
 from lib import payloads, sim
 
 PID = "C03"
-GEN = []
-LEAN_MODULES = ["YowsupVerif.Props.C03"]
+GEN = ["sentqueue"]
+LEAN_MODULES = ["YowsupVerif.Props.C03", "YowsupVerif.Props.C03Queue"]
 RULE = ("conversation scripts over 2-4 accounts and 0-2 groups: 3..10 application sends (1:1 or group; text / extended text / image / location / "
         "contact / link payloads), interleaved at random with the server's process / deliver actions (any enabled one: every per-account "
         "FIFO-respecting schedule), at most one fault (duplicate or corrupt) per (message, recipient), restarts of an account at quiescence; "
         "then drained to quiescence.  Every action is one model step.  distinct = distinct (accounts, groups, action list).")
 RULE += (' Long-lived senders: 104 group / 103 direct messages in one process life, each acknowledged before the next, the last ones damaged once.')
+RULE += (" stream 'sentqueue': operation sequences (send / receipt that takes the message out / participant receipt that leaves it in; 150-450 operations, "
+         "ids repeated) on the real send layer's sent-message memory vs Model/SentQueue.lean, and the clause itself: a message with fewer than MAX_SENT_QUEUE "
+         "later sends and no receipt is found by a retry request.")
 ASSUMPTIONS = ["symbolic cryptography: a ciphertext opens exactly once, at the holder of the session / sender key it names (python-axolotl exercised, not modelled)",
                "the server double (routing, fan-out, receipts, key and group queries, per-account FIFO queues) is the honest server of the property",
                "fewer than 100 unacknowledged messages per sender; restarts only at quiescence; one fault per (message, recipient)"]
@@ -59,6 +62,19 @@ def cases(chk):
     ]
     for c in corpus:
         yield "script", c
+    # the memory of sent messages that retry requests are served from (bounded: Model/SentQueue.lean)
+    for i in range(chk.scale(12, 300)):
+        n = r.choice([150, 220, 450])
+        ops = []
+        nid = 0
+        for _j in range(n):
+            x = r.random()
+            if x < 0.72 or nid == 0:
+                ops.append(["enq", nid if r.random() < 0.97 else r.randrange(nid + 1)])
+                nid += 1
+            else:
+                ops.append(["take", max(0, nid - 1 - int(r.expovariate(0.05))) if r.random() < 0.9 else nid + 5, r.choice([0, 0, 1])])
+        yield "sentqueue", {"ops": ops}
     # a long-lived sender: more messages in one process life than any bounded memory of sent messages holds (the property's bound is on
     # UNACKNOWLEDGED messages: each of these is acknowledged before the next), then one whose ciphertext is damaged once
     for kind, n in (("g", 104), ("u", 103)) if chk.quick() else (("g", 104), ("u", 103), ("g", 230)):
@@ -158,6 +174,11 @@ def nontrivial(stream, case):
 
 
 def shrink(stream, case):
+    if stream == "sentqueue":
+        ops = case["ops"]
+        for i in range(0, len(ops), max(1, len(ops) // 40)):
+            yield {"ops": ops[:i] + ops[i + max(1, len(ops) // 40):]}
+        return
     sc = case["script"]
     for i in range(len(sc)):
         yield dict(case, script=sc[:i] + sc[i + 1:], faults=[f for f in case["faults"] if f[0] < len(sc) - 1])
@@ -283,7 +304,49 @@ class World(object):
         return ",".join(out)
 
 
+class _Node(dict):
+    pass
+
+
+def run_sentqueue(chk, case):
+    from yowsup.layers.axolotl.layer_send import AxolotlSendLayer
+    d = chk.driver
+    d.ask("sq reset")
+    cap = int(d.ask("sq cap"))
+    layer = AxolotlSendLayer()
+    fails = []
+    last_enq = {}            # id -> number of sends after its latest send
+    live = {}                # id -> sent, not taken out since
+    sends = 0
+    for i, op in enumerate(case["ops"]):
+        if op[0] == "enq":
+            layer.enqueueSent(_Node(id=str(op[1])))
+            impl = ",".join(n["id"] for n in layer.sentQueue) or "-"
+            model = d.ask("sq enq %d" % op[1])
+            sends += 1
+            last_enq[op[1]] = sends
+            live[op[1]] = True
+        else:
+            got = layer.getEnqueuedMessageNode(str(op[1]), bool(op[2]))
+            impl = "%s %s" % ("found" if got is not None else "none", ",".join(n["id"] for n in layer.sentQueue) or "-")
+            model = d.ask("sq take %d %d" % (op[1], op[2]))
+            # the clause itself, on the real object: sent, fewer than `cap` sends since, no receipt that took it out: a retry request finds it
+            if live.get(op[1]) and sends - last_enq[op[1]] < cap and got is None:
+                fails.append(oracle("C03:retry-request-finds-nothing", "operation #%d of %d: message %d was sent %d sends ago (memory bound %d) and no receipt took it out, "
+                                    "yet a retry request for it finds nothing: it cannot be encrypted again for the recipient" % (i, len(case["ops"]), op[1], sends - last_enq[op[1]], cap)))
+                break
+            if not op[2]:
+                live[op[1]] = False
+        if impl != model:
+            fails.append(corr("sentqueue", "operation #%d %s: impl=%s model=%s" % (i, op, impl[-80:], model[-80:])))
+            break
+    chk.hit("sentqueue:ops>%d" % (len(case["ops"]) // 100 * 100), "sentqueue:overflowed" if sends > cap else "sentqueue:below-bound")
+    return fails
+
+
 def run_case(chk, stream, case):
+    if stream == "sentqueue":
+        return run_sentqueue(chk, case)
     from yowsup.layers.protocol_messages.protocolentities.attributes.attributes_message_meta import MessageMetaAttributes
     fails = []
     d = chk.driver
